@@ -34,9 +34,10 @@ def _kinds_of(param):
     return k
 
 
-def api_surface():
+def api_surface(all_public=False):
     """[(api_name, [(param, kinds)])] for public functions taking an annotation/dict/list and all public annotation methods
-    and setters.  api_name: 'mass', 'ProFormaAnnotation.slice', 'ProFormaAnnotation.labile_mods.setter'"""
+    and setters.  api_name: 'mass', 'ProFormaAnnotation.slice', 'ProFormaAnnotation.labile_mods.setter'.
+    all_public=True: every public function of the package (the str-accepting ones too: held to the static obligations)"""
     import peptacular as pt
     from peptacular.proforma.proforma_parser import ProFormaAnnotation
     out = []
@@ -49,7 +50,7 @@ def api_surface():
         ps = []
         for p in inspect.signature(o).parameters.values():
             ps.append((p.name, _kinds_of(p)))
-        if any(k for _, k in ps):
+        if all_public or any(k for _, k in ps):
             out.append((name, ps))
     for name in sorted(dir(ProFormaAnnotation)):
         if name.startswith('_'):
@@ -64,6 +65,13 @@ def api_surface():
             for i, p in enumerate(inspect.signature(o).parameters.values()):
                 ps.append((p.name, 'A' if i == 0 else _kinds_of(p)))
             out.append((f'ProFormaAnnotation.{name}', ps))
+    if all_public:
+        from peptacular.fragmentation import Fragmenter
+        for name in sorted(vars(Fragmenter)):
+            o = vars(Fragmenter)[name]
+            if not name.startswith('_') and inspect.isfunction(o):
+                ps = [(p.name, 'A' if i == 0 else _kinds_of(p)) for i, p in enumerate(inspect.signature(o).parameters.values())]
+                out.append((f'Fragmenter.{name}', ps))
     return out
 
 
@@ -81,6 +89,13 @@ def is_declared_editor(api, variant=''):
 
 # API members deliberately not exercised, with the reason (mirrored in Lean as `declaredOutside`)
 DECLARED_OUTSIDE = {
+    'compliance_randomizer': 'randomizer.py: random test-data generator',
+    'random_sequence': 'randomizer.py: random test-data generator',
+    'random_mod': 'randomizer.py: random test-data generator',
+    'random_interval': 'randomizer.py: random test-data generator',
+    'reload_all_databases': 'mod_db_setup: explicit editor of the modification databases',
+    'reload_all_databases_from_online': 'mod_db_setup: explicit editor of the modification databases',
+    'reset_all_databases': 'mod_db_setup: explicit editor of the modification databases',
     'cross_linking_randomizer': 'randomizer.py: random test-data generator, edits the annotation it is given by contract',
     'glycan_randomizer': 'randomizer.py: random test-data generator, edits the annotation it is given by contract',
     'spectrum_randomizer': 'randomizer.py: random test-data generator, edits the annotation it is given by contract',
@@ -376,6 +391,16 @@ def build_world(base, rng=None):
     w['d1'] = {'C': 2, 'H': 3, 'O': -1}
     w['d2'] = {'O': 1, 'N': 1}
     w['dists'] = [[(100.0, 1.0), (101.0, 0.5)], [(100.0, 0.2), (102.0, 0.1)]]
+    # the same *strings* are handed to several calls: a memoised parser must not hand out (and let callers edit) a shared object
+    try:
+        w['s'] = a.serialize()
+        pt.parse(w['s'])
+    except Exception:
+        w['s'] = a.sequence
+    w['s_sub'] = a.sequence[min(1, n - 1):min(3, n)]
+    w['formula'] = 'C6H12O6'
+    w['formula2'] = 'C2H5NO[13C2]'
+    w['glycan_s'] = 'HexNAc2Hex3'
     w['annots'] = [ProFormaSlice(a, 0, n), ProFormaSlice(a, 0, min(2, n))]
     w['conns'] = [True]
     # fragments of an unambiguous relative of the shape, deliberately not in m/z order
@@ -632,6 +657,52 @@ def make_specs():
     F('write_isotope_mods', lambda w: pt.write_isotope_mods(w['iso_dict']), ('iso_dict',), params=P(iso_dict='mods'))
     F('write_static_mods', lambda w: pt.write_static_mods(w['static_dict']), ('static_dict',), params=P(static_dict='mods'))
 
+    # ---- the same public functions on strings (and the str-only public functions): one string object for every call
+    def FS(name, fn, uses, api=None, **kw):
+        S.append(Spec('str:' + name, api or name.split('[')[0], fn, uses, params={}, **kw))
+    FS('parse_chem_formula', lambda w: pt.parse_chem_formula(w['formula']), ('formula',))
+    FS('parse_chem_formula[iso]', lambda w: pt.parse_chem_formula(w['formula2']), ('formula2',))
+    FS('chem_mass', lambda w: pt.chem_mass(w['formula']), ('formula',))
+    FS('chem_mass[iso]', lambda w: pt.chem_mass(w['formula2'], monoisotopic=False), ('formula2',))
+    FS('chem_mz', lambda w: pt.chem_mz(w['formula'], 2), ('formula',))
+    FS('apply_isotope_mods_to_composition', lambda w: pt.apply_isotope_mods_to_composition(w['formula'], ['13C']), ('formula',))
+    FS('apply_isotope_mods_to_composition[iso]', lambda w: pt.apply_isotope_mods_to_composition(w['formula2'], ['15N', 'D']),
+       ('formula2',))
+    FS('isotopic_distribution', lambda w: pt.isotopic_distribution(pt.parse_chem_formula(w['formula']), 4, 0.001, 3), ('formula',))
+    FS('glycan_comp', lambda w: pt.glycan_comp(w['glycan_s']), ('glycan_s',))
+    FS('glycan_mass', lambda w: pt.glycan_mass(w['glycan_s']), ('glycan_s',))
+    FS('glycan_to_chem', lambda w: pt.glycan_to_chem(w['glycan_s']), ('glycan_s',))
+    FS('parse_glycan_formula', lambda w: pt.parse_glycan_formula(w['glycan_s']), ('glycan_s',))
+    FS('convert_glycan_formula_to_chem_formula', lambda w: pt.convert_glycan_formula_to_chem_formula(w['glycan_s']), ('glycan_s',))
+    for m in ('Oxidation', 'Formula:C2H3NO', 'Glycan:HexNAc2Hex3', 'UNIMOD:21', '+15.995', 'Formula:[13C2]H4'):
+        FS(f'mod_mass[{m}]', lambda w, m=m: pt.mod_mass(m), ())
+        FS(f'mod_comp[{m}]', lambda w, m=m: pt.mod_comp(m), ())
+    FS('parse', lambda w: pt.parse(w['s']), ('s',))
+    FS('sequence_to_annotation', lambda w: pt.sequence_to_annotation(w['s']), ('s',))
+    FS('serialize', lambda w: pt.serialize(pt.parse(w['s'])), ('s',))
+    for nm in ('mass', 'mz', 'comp_mass', 'get_mods', 'pop_mods', 'strip_mods', 'reverse', 'sort', 'split', 'count_residues',
+               'sequence_length', 'is_modified', 'is_ambiguous', 'condense_static_mods', 'condense_to_mass_mods', 'count_aa'):
+        FS(nm, lambda w, nm=nm: getattr(pt, nm)(w['s']), ('s',))
+    FS('comp', lambda w: pt.comp(w['s'], estimate_delta=True), ('s',))
+    FS('mass[b,2]', lambda w: pt.mass(w['s'], 2, 'b'), ('s',))
+    FS('shift', lambda w: pt.shift(w['s'], 2), ('s',))
+    FS('shuffle[seed]', lambda w: pt.shuffle(w['s'], 5), ('s',))
+    FS('span_to_sequence', lambda w: pt.span_to_sequence(w['s'], (0, 2, 0)), ('s',))
+    FS('fragment', lambda w: pt.fragment(w['s'], ['b', 'y'], [1, 2], return_type='mz-label'), ('s',))
+    FS('fragment[objects]', lambda w: pt.fragment(w['s'], 'y', 1), ('s',))
+    FS('digest', lambda w: pt.digest(w['s'], '([KR])', 1), ('s',))
+    FS('digest[annotation]', lambda w: pt.digest(w['s'], 'trypsin', 1, return_type='annotation'), ('s',))
+    FS('get_non_enzymatic_sequences', lambda w: pt.get_non_enzymatic_sequences(w['s'], 1, 3), ('s',))
+    FS('coverage', lambda w: pt.coverage(w['s'], [w['s_sub']]), ('s', 's_sub'))
+    FS('find_subsequence_indices', lambda w: pt.find_subsequence_indices(w['s'], w['s_sub'], True), ('s', 's_sub'))
+    FS('is_subsequence', lambda w: pt.is_subsequence(w['s_sub'], w['s'], False), ('s', 's_sub'))
+    FS('permutations', lambda w: pt.permutations(w['s'], 2), ('s',))
+    FS('combinations', lambda w: pt.combinations(w['s'], 2), ('s',))
+    FS('apply_static_mods', lambda w: pt.apply_static_mods(w['s'], {'K': ['Methyl']}, return_type='annotation'), ('s',))
+    FS('apply_variable_mods', lambda w: pt.apply_variable_mods(w['s'], {'K': ['Methyl']}, 1, return_type='annotation'), ('s',))
+    FS('add_mods', lambda w: pt.add_mods(w['s'], {'nterm': 'Acetyl'}), ('s',))
+    FS('Fragmenter', lambda w: pt.Fragmenter(w['s']).fragment(['b', 'y'], 1, return_type='mz'), ('s',), api='Fragmenter')
+
     # ---- annotation methods: queries
     for nm in ('has_sequence', 'has_isotope_mods', 'has_static_mods', 'has_labile_mods', 'has_unknown_mods', 'has_nterm_mods',
                'has_cterm_mods', 'has_internal_mods', 'has_intervals', 'has_charge', 'has_charge_adducts', 'has_mods',
@@ -886,7 +957,13 @@ def history_check(si, names, w0=None, wire=None, fresh=None):
         keys = set(w0.keys())
     w = partial_copy(w0, keys)
     for s in specs[:-1]:
-        run_call(s, w)
+        _, raw = run_call(s, w)
+        if not s.accessor:
+            # the caller edits what it got back before the next call (a cache handing out a shared object shows here)
+            try:
+                mutate(raw, world_record_ids(w))
+            except Exception:
+                pass
     rs = _random.getstate()
     r, _ = run_call(specs[-1], w)
     _random.setstate(rs)
@@ -909,7 +986,12 @@ def task_pairs(si):
     for A in As:
         wA = copy.deepcopy(w0)
         rsA = _random.getstate()
-        run_call(A, wA)
+        _, rawA = run_call(A, wA)
+        if not A.accessor:
+            try:
+                mutate(rawA, world_record_ids(wA))     # the caller edits the result of A before calling B
+            except Exception:
+                pass
         if not A.random:
             _random.setstate(rsA)
         for B in Bs:
@@ -967,13 +1049,96 @@ def task_triples(arg):
     return {'evals': n, 'nontrivial': nontriv, 'failures': fails[:100], 'nfail': len(fails)}
 
 
+# ------------------------------------------------------------------------------------------------ Fragmenter object histories
+
+FRAGMENTER_OPS = [
+    (('b', 1), {}),
+    ((['b'], [1]), {}),
+    (('y', 2), {}),
+    ((['b', 'y'], 1), {}),
+    (('by', 1), {}),
+    ((['b', 'y'], [1, 2]), {'isotopes': [0, 1]}),
+    (('b', 1), {'water_loss': True}),
+    (('b', 1), {'losses': [('K', -1.0)]}),
+    (('b', 1), {'losses': ('K', -1.0), 'max_losses': 2}),
+    (('b', 1), {'return_type': 'mz'}),
+    (('y', 1), {'return_type': 'label'}),
+    (('b', 1), {'precision': 2}),
+    (('i', 1), {}),
+]
+
+
+def _fragmenter_base(base):
+    fa = base.copy()
+    fa._intervals = None
+    fa._unknown_mods = None
+    return fa
+
+
+def fragmenter_history(base, idxs):
+    """one Fragmenter object, the calls FRAGMENTER_OPS[i] for i in idxs in that order, every result edited by the caller before
+    the next call; returns None or a description of the failure (last result != result on a fresh Fragmenter; source changed)"""
+    import peptacular as pt
+    fa = _fragmenter_base(base)
+    src = fa.copy()
+    d_src = deep_dump(src)
+
+    def call(f, k):
+        args, kw = FRAGMENTER_OPS[k]
+        try:
+            return f.fragment(*copy.deepcopy(args), **copy.deepcopy(kw)), None
+        except Exception as e:  # noqa
+            return None, 'EXC:' + type(e).__name__
+    try:
+        fresh_obj = pt.Fragmenter(fa.copy())
+    except Exception:
+        return None
+    r0, e0 = call(fresh_obj, idxs[-1])
+    fresh = e0 or deep_dump(r0)
+    f = pt.Fragmenter(src)
+    for k in idxs[:-1]:
+        r, _ = call(f, k)
+        try:
+            mutate(r, set())
+        except Exception:
+            pass
+    r, e = call(f, idxs[-1])
+    got = e or deep_dump(r)
+    if got != fresh:
+        return f'Fragmenter.fragment{FRAGMENTER_OPS[idxs[-1]]} after {[FRAGMENTER_OPS[k] for k in idxs[:-1]]} on the same Fragmenter: ' \
+               f'{got[:200]}  but on a fresh Fragmenter: {fresh[:200]}'
+    if deep_dump(src) != d_src:
+        return f'Fragmenter histories changed the annotation the Fragmenter was built from: {d_src[:150]} -> {deep_dump(src)[:150]}'
+    return None
+
+
+def task_fragmenter(si):
+    st = STATE
+    base = st.bases[si]
+    n = len(FRAGMENTER_OPS)
+    fails, evals = [], 0
+    seqs = [(i, j) for i in range(n) for j in range(n)]
+    rng = _random.Random(si * 31 + 7)
+    seqs += [(rng.randrange(n), rng.randrange(n), rng.randrange(n)) for _ in range(60)]
+    for idxs in seqs:
+        evals += 1
+        r = fragmenter_history(base, idxs)
+        if r:
+            fails.append({'kind': 'history-dependent', 'shape': st.wires[si], 'calls': [f'Fragmenter#{k}' for k in idxs],
+                          'changed': [], 'detail': r})
+    return {'evals': evals, 'failures': fails[:20], 'nfail': len(fails)}
+
+
 def eval_case(case):
     """re-run one stored case (corpus / replay): shape wire + call names -> list of failures (empty = property holds)"""
     global STATE
     st = STATE
     base = annot.undump(case['shape'])
-    w0 = build_world(base)
     names = case['calls']
+    if names and all(n.startswith('Fragmenter#') for n in names):
+        r = fragmenter_history(base, [int(n.split('#')[1]) for n in names])
+        return [{'kind': 'history-dependent', 'shape': case['shape'], 'calls': names, 'changed': [], 'detail': r}] if r else []
+    w0 = build_world(base)
     out = []
     for n in names:
         if n not in st.by_name:
